@@ -5,7 +5,7 @@ from . import checklib
 
 
 def registry():
-    from . import checks_codec, checks_prim, checks_records, checks_registry, checks_schema, checks_stream, checks_value
+    from . import checks_codegen, checks_codec, checks_prim, checks_records, checks_registry, checks_schema, checks_stream, checks_value
     reg = {
         "C01": checks_codec.check_C01,
         "C02": checks_codec.check_C02,
@@ -24,6 +24,7 @@ def registry():
         "C19": checks_registry.check_C19,
         "C15": checks_value.check_C15,
         "C07": checks_stream.check_C07,
+        "C16": checks_codegen.check_C16,
     }
     return reg
 
